@@ -54,7 +54,7 @@ var statGapsCmd = &cobra.Command{
 		}
 
 		al := <-aligns.Achan
-		if aligns.Err != nil {
+		if al == nil {
 			err = aligns.Err
 			io.LogError(err)
 			return
